@@ -128,7 +128,8 @@ class Elem:
         self.note = note
 
 
-def make_elem(name, content, signer_kid, locator, holds=None, sig='key', tamper=False, via_security_v2=False):
+def make_elem(name, content, signer_kid, locator, holds=None, sig='key', tamper=False, via_security_v2=False,
+              hmac_key=b'0123456789abcdef'):
     """build a REAL signed Data packet.  sig: 'key' (ECDSA/RSA by signer_kid), 'digest', 'none', 'hmac'."""
     from ndn.encoding import make_data, MetaInfo, ContentType
     from ndn.security.signer.sha256_ecdsa_signer import Sha256WithEcdsaSigner
@@ -146,7 +147,7 @@ def make_elem(name, content, signer_kid, locator, holds=None, sig='key', tamper=
     elif sig == 'digest':
         signer, sig_type, locator = DigestSha256Signer(), 'digest', None
     elif sig == 'hmac':
-        signer, sig_type = HmacSha256Signer(list(locator), b'0123456789abcdef'), 'hmac'
+        signer, sig_type = HmacSha256Signer(list(locator), hmac_key), 'hmac'
     else:
         signer, sig_type, locator = None, 'none', None
     if via_security_v2 and sig == 'key' and holds:
@@ -430,6 +431,11 @@ def deviations(p: Pki):
                               holds=e.holds, sig=how)
             w, tgt = world_with(new_e)
             yield 'link%d-%s-signature' % (i, how), w, tgt, False
+        # 6b. forged without any private key: HMAC keyed with the issuer's PUBLIC key bits (what the validator fetches)
+        new_e = make_elem(e.name, get_key(e.holds)['pub'] if e.holds else p.content, None, issuer.name,
+                          holds=e.holds, sig='hmac', hmac_key=bytes(get_key(issuer.holds)['pub']))
+        w, tgt = world_with(new_e)
+        yield 'link%d-hmac-keyed-with-issuer-public-key' % i, w, tgt, False
         # 7. loops
         if e.holds:
             w, tgt = world_with(p.resign(e, e))          # certificate names itself as issuer (self-signed, genuine)
